@@ -1,4 +1,5 @@
 import BqVerif.Model.Accept
+import BqVerif.Model.AcceptGrid
 import BqVerif.Model.CircBlocks
 import BqVerif.Drivers.Util
 /- Driver for the `accept` machine (C10): the scanning / tree-scanning / exhaustive removal loops run
@@ -10,7 +11,9 @@ Requests:
   scan | ops… | order tags… | kept tags… | seed m k         → surviving tags
   tree depth | ops… | order tags… | seed m k                 → surviving tags
   exh | ops… | seed m k                                      → surviving tags
-  sametl n | gid:q,q… … | gid:q,q… …                         → 1 / 0 -/
+  sametl n | gid:q,q… … | gid:q,q… …                         → 1 / 0
+  gtc orig | cycle / cycle / … (ops tag:q,q) | cyc:q cyc:q …   → get_tree_circs on the cycle grid:
+                                                               `raise` or the tag lists `a b c ; …` -/
 namespace BqVerif.Drv.Accept
 open BqVerif.Accept BqVerif.Drv
 
@@ -38,6 +41,22 @@ def parseTlOp (s : String) : Option BqVerif.Circ.Op :=
     some { gid := gid, par := [], loc := loc, rad := loc.map fun _ => 2 }
   | _ => none
 
+def parseGrid (ts : List String) : Option AcceptGrid.Grid :=
+  ((" ".intercalate ts).splitOn "/").mapM fun cy =>
+    ((cy.splitOn " ").filter (· ≠ "")).mapM fun o =>
+      match o.splitOn ":" with
+      | [t, l] => do
+        let t ← t.toNat?
+        let loc ← (l.splitOn ",").mapM (·.toNat?)
+        some ({ tag := t, loc := loc } : AcceptGrid.GOp)
+      | _ => none
+
+def parseChunk (ts : List String) : Option (List AcceptGrid.ChunkOp) :=
+  ts.mapM fun o =>
+    match (o.splitOn ":").mapM (·.toNat?) with
+    | some [c, q] => some ⟨c, q⟩
+    | _ => none
+
 def step (line : String) : String :=
   match groups line with
   | [["scan"], ops, order, kept, [seed, m, k]] =>
@@ -58,6 +77,14 @@ def step (line : String) : String :=
        if m == 0 then "bad-op" else
        showTags (exhaustiveRun (fun _ => ()) (script seed m k) score (ops, ())).1
      | _, _ => "bad-op")
+  | [["gtc", orig], grid, chunk] =>
+    (match orig.toNat?, parseGrid grid, parseChunk chunk with
+     | some orig, some g, some ch =>
+       (match AcceptGrid.getTreeCircs orig g ch with
+        | none => "raise"
+        | some l => " ; ".intercalate (l.map fun x =>
+            " ".intercalate ((AcceptGrid.tags x).map toString)))
+     | _, _, _ => "bad-op")
   | [["sametl", n], l1, l2] =>
     (match n.toNat?, l1.mapM parseTlOp, l2.mapM parseTlOp with
      | some n, some l1, some l2 => if BqVerif.Circ.sameTimelines n l1 l2 then "1" else "0"
